@@ -34,6 +34,10 @@ ASSUMPTIONS = [
     "sandbox invariance is claimed for steps whose own description and whose inputs do not change when the sandbox is "
     "enabled; projects that query $(is-sandbox-enabled) are excluded from the on/off comparison",
     "CoreStep.getResultId / CoreTool.resultId / CoreSandbox.resultId (package merging) are not modelled",
+    "tools and sandbox of a step are exported from its core view (what CoreStep.getDigest hashes); below a package that was "
+    "merged by result id (known findings F-C04-2..5) the package-level getters Step.getTools/getSandbox - and with them "
+    "StepIR.getDigestCoro in Variant-Id mode - can show another sandbox/tool set; such steps are counted (histogram "
+    "core_vs_package_view), not compared",
     "golden ids are a test on five fixed roots (recorded values), labelled as such",
 ]
 
@@ -138,7 +142,9 @@ def _evaluate_projects(ctx, plan, tag, deadline_left):
             part = lst[off:off + chunk]
             hs = {0: 0, 1: 1, 2: rng0.randrange(2, 2 ** 32)}[seed]
             extra = {} if seed == 0 else {"HOME": os.path.join(ctx.tmp, "home%d" % seed), "LANG": "C", "TZ": "Asia/Tokyo"}
-            items.append(([j for _, _, j in part], hs, extra, max(20, min(90, ctx.time_left() * 0.5))))
+            # the first batch is mandatory: its interpreters get a fixed, generous time-out so that a seed explores the
+            # same projects whatever the machine load is; later batches are bounded by what is left of the budget
+            items.append(([j for _, _, j in part], hs, extra, 240 if deadline_left < 0 else max(20, min(90, ctx.time_left() * 0.5))))
             index.append([(pi, c) for pi, c, _ in part])
     import concurrent.futures as cf
     ex = cf.ThreadPoolExecutor(min(12, os.cpu_count() or 4, max(1, len(items))))
@@ -146,12 +152,12 @@ def _evaluate_projects(ctx, plan, tag, deadline_left):
         futs = [ex.submit(_run_jobs, it) for it in items]
         for idx, fut in zip(index, futs):
             try:
-                res = fut.result(timeout=max(1, ctx.time_left() - deadline_left + 5))
+                res = fut.result(timeout=None if deadline_left < 0 else max(1, ctx.time_left() - deadline_left + 5))
             except cf.TimeoutError:
                 break
             for (pi, c), r in zip(idx, res):
                 recs[pi]["results"][c] = r
-            if ctx.time_left() < deadline_left:
+            if deadline_left >= 0 and ctx.time_left() < deadline_left:
                 break
     finally:
         # queued interpreters are dropped, running ones end by their own time-out
@@ -199,6 +205,8 @@ def check_project(ctx, rec, report=True):
     import hashlib
     pf = hashlib.sha1(json.dumps(rec["project"], sort_keys=True).encode()).hexdigest()[:12]
     for s in A["steps"]:
+        if report and s["desc"].get("view_mismatch"):
+            ctx.count("core_vs_package_view", "+".join(s["desc"]["view_mismatch"]))
         if report:
             ctx.case((pf, s["key"], "A"), nontrivial=s["valid"],
                      sample={"step": s["key"], "vid": s["vid"], "bid": [b["id"] for b in s["bid"]]})
@@ -283,6 +291,10 @@ def check_project(ctx, rec, report=True):
     if _usable(D) and not rec["uses_query"]:
         da = {s["key"]: s for s in A["steps"]}
         dd = {s["key"]: s for s in D["steps"]}
+        if report:
+            for s in D["steps"]:
+                if s["desc"].get("view_mismatch"):
+                    ctx.count("core_vs_package_view", "D:" + "+".join(s["desc"]["view_mismatch"]))
         taint = {}
 
         def own(s):
@@ -398,7 +410,7 @@ def oracle(ctx):
     done = 0
     while done < n and (done == 0 or ctx.time_left() > t0 * 0.5):
         plan = _plan_range(ctx, done, min(n, done + batch), nedits)
-        part = _evaluate_projects(ctx, plan, "p%d" % done, t0 * 0.3 if done else 10)
+        part = _evaluate_projects(ctx, plan, "p%d" % done, t0 * 0.3 if done else -1)
         for rec in part:
             check_project(ctx, rec)
         if len(recs) < 100:      # kept for the correspondence
